@@ -12,6 +12,7 @@ import (
 	"fmt"
 	"os"
 	"path/filepath"
+	"runtime"
 	"sort"
 	"strings"
 	"sync"
@@ -202,7 +203,7 @@ type Holder struct {
 	at      int
 	n       int
 	label   string
-	atLabel string          // alternatively: park at the first point with this label
+	atLabel string // alternatively: park at the first point with this label
 	parked  bool
 	Ctx     context.Context // the context the parked call was given
 	reached chan struct{}
@@ -454,12 +455,43 @@ type lockW struct {
 	e   *Env
 	key string
 	op  string
+	gid uint64 // the goroutine that acquired it
+}
+
+// curGID: the id of the running goroutine (from the first line of its stack: "goroutine 123 [running]:")
+func curGID() uint64 {
+	var buf [64]byte
+	n := runtime.Stack(buf[:], false)
+	var id uint64
+	for _, c := range buf[len("goroutine "):n] {
+		if c < '0' || c > '9' {
+			break
+		}
+		id = id*10 + uint64(c-'0')
+	}
+	return id
+}
+
+// heldBy: the keys of the locks this goroutine acquired and has not released
+func (b *lockBook) heldBy(gid uint64) []string {
+	b.mu.Lock()
+	defer b.mu.Unlock()
+	out := []string{}
+	for l := range b.held {
+		if l.gid == gid {
+			out = append(out, l.key)
+		}
+	}
+	sort.Strings(out)
+	return out
 }
 
 type heldKeyT struct{}
 
-// the locks held on the path that leads to a Lock call travel in the context the code threads
-// through its nested helpers (Lock returns a context; detached goroutines start from a fresh one)
+// the locks held on the path that leads to a Lock call: those that travel in the context the code threads
+// through its nested helpers (Lock returns a context; a parent that waits for its tasks passes it on to them;
+// detached goroutines start from a fresh one), plus those the calling goroutine itself acquired and still
+// holds (a nested call made in place holds them whatever context it builds for itself)
 func heldIn(ctx context.Context) []string {
 	if h, ok := ctx.Value(heldKeyT{}).([]string); ok {
 		return h
@@ -470,17 +502,25 @@ func heldIn(ctx context.Context) []string {
 func (l *lockW) acquire(ctx context.Context, method string, f func(context.Context) (context.Context, error)) (context.Context, error) {
 	var rctx context.Context
 	l.op = opOf(ctx)
-	held := heldIn(ctx)
+	gid := curGID()
+	ctxHeld := heldIn(ctx)
+	held := append([]string{}, ctxHeld...)
+	for _, k := range l.e.Locks.heldBy(gid) {
+		if !contains(held, k) {
+			held = append(held, k)
+		}
+	}
 	err := l.e.G.Do(ctx, "lock", method, Event{"key": l.key, "held": held}, true, func() (err error) {
 		rctx, err = f(ctx)
 		return err
 	})
 	if err == nil {
 		l.e.Locks.mu.Lock()
+		l.gid = gid
 		l.e.Locks.held[l] = true
 		l.e.Locks.mu.Unlock()
 		if rctx != nil {
-			rctx = context.WithValue(rctx, heldKeyT{}, append(append([]string{}, held...), l.key))
+			rctx = context.WithValue(rctx, heldKeyT{}, append(append([]string{}, ctxHeld...), l.key))
 		}
 	}
 	return rctx, err
